@@ -7,7 +7,10 @@
 
   Go `int` is modelled by `Int`: the function only adds/multiplies `int32` weights (scaled by at
   most 100) a bounded number of times, so 64-bit wrap-around needs more than 2^24 endpoints (listed as an
-  assumption of the check).  Go strings are byte sequences: `List Nat` (every element < 256).
+  assumption of the check; Go `int` is 64 bit on the checked platform).  The specification side
+  (`max 1 (Wᵢ·R / M)` in `Props/C13.lean`) is exact over `Int` for all int32 weights; an implementation
+  that narrows `Wᵢ·R` to int32 wraps from 21 474 837 (R = 100) resp. 214 748 365 (R = 10) on and is
+  found by the differential run on the extreme-weight streams.  Go strings are byte sequences: `List Nat` (every element < 256).
 -/
 import TarsModel.Generated.Consts
 
